@@ -78,3 +78,21 @@ def compare(prog, o, counters=None, want_trace=True, max_msgs=4):
         if len(msgs) >= max_msgs:
             break
     return ("violation" if msgs else "agree"), msgs
+
+
+def run_prog_case(prog, root, cnt, wall=120, style=apm.PLAIN):
+    """Render, materialise in a fresh subdirectory, assemble, compare with the reference.  Returns (verdict, msgs, outcome, texts)."""
+    import shutil
+    import tempfile
+    texts = render_all(prog, style)
+    sub = tempfile.mkdtemp(prefix="r-", dir=root)
+    try:
+        files = materialise(prog, texts, sub)
+        o = asm.assemble(files, charset=prog.charset, wall=wall)
+    finally:
+        shutil.rmtree(sub, ignore_errors=True)
+    c = {}
+    verdict, msgs = compare(prog, o, c)
+    for k, v in c.items():
+        cnt[k] = cnt.get(k, 0) + v
+    return verdict, msgs, o, texts
